@@ -1103,3 +1103,34 @@ def rule_attachments_are_new_entries(ctx, facts, rule):
                   "SpanQueue::%s pushes a new entry on every accepted path and never modifies an entry recorded earlier" % name,
                   "push at %s" % [fn.loc(b) for b in pushes],
                   "accepted path without a push (bb%s) or earlier entries modified at %s" % (wit, touch), extra="new-entry")
+
+
+def rule_danglings_key_unique(ctx, facts, rule):
+    """C06-R8: the key under which attachments are parked must identify ONE delivered record. Records of one trace share
+    a span id whenever a multi-parent span has two parents in the same trace (one copy per parent, same id), so either
+    the key includes the copy's parent, or token assembly must refuse / merge parents of the same trace."""
+    adt = facts.adts.get("fastrace::collector::global_collector::ActiveCollector")
+    if adt is None:
+        ctx.fail(rule, "ActiveCollector", "-", "anchor exists", "anchor lost", extra="danglings-key")
+        return
+    f = [x for x in adt["variants"][0]["fields"] if "DanglingItem" in x["ty"]]
+    key = None
+    if f:
+        m = re.search(r"HashMap<([^,]+(?:\([^)]*\))?), ", f[0]["ty"])
+        key = m.group(1) if m else None
+    key_has_parent = bool(key) and key.strip().startswith("(")
+    ewp = facts.fn("fastrace::span::Span::enter_with_parents")
+    dedup = False
+    if ewp is not None:
+        bodies = [ewp] + facts.closures_of(ewp)
+        dedup = any(g.calls_re(r"::(dedup\w*|contains|insert|entry|sort\w*|unique)$", cleanup=False) for g in bodies) and \
+            any(".collect_id" in "".join(o.path) for g in bodies for b in g.calls() for a in g.term(b)["args"]
+                for o in Prov(facts).of_operand(g, a))
+    ctx.check(key_has_parent or dedup, rule, adt["path"], adt["span"],
+              "attachments are parked under a key that identifies one delivered record (copies of a multi-parent span within one "
+              "trace are told apart), or a token cannot carry two parents of the same trace",
+              "key type %s" % key,
+              "danglings are keyed by %s alone and Span::enter_with_parents accepts two parents of one trace: both copies of the "
+              "span carry the same id, the first copy mounted takes every attachment (twice), the second gets none -- "
+              "let m = Span::enter_with_parents(\"m\", [&root, &child_of_root]); m.add_property(..); m.add_event(..)" % key,
+              extra="danglings-key")
